@@ -223,12 +223,46 @@ driver("C16",
        {"evaluations": 300, "updates_ok": 300, "blocks": 1000, "transactions": 3000})
 
 
+CODEC_ASSUME = [
+    "hooks H4 are thin wrappers that only call the crate-private encoders/decoders (src/index/verif.rs, cfg-gated impl blocks in src/properties.rs and src/inscriptions/inscription.rs)",
+    "checked build (overflow checks + debug assertions, which arm the output-entry builder's state machine); the thorough tier repeats the workload on a release build",
+]
+
+
+def codec(pid, technique, level_text, rule, floors, budget_quick=30, budget_thorough=300, **kw):
+    CHECKS[pid] = dict(
+        level="exploration", technique=technique, level_text=level_text, rule=rule, floors=floors,
+        shards_quick=16, budget_quick=budget_quick, shards_thorough=16, budget_thorough=budget_thorough,
+        release_pass=True, miri=False, assumptions=CODEC_ASSUME, crash_is_violation=True, **kw)
+
+
+codec("C27",
+      "round-trip monitor: generated Inscription values written with ord's reveal-script builder (one or several per script, several inputs, arbitrary script prefix/suffix, five witness shapes incl. annex) and parsed back with ParsedEnvelope::from_transaction; independent encoders for the compact pointer / id / rune-commitment values; totality monitor on damaged scripts and random witnesses (every accessor of the result is called); a dead shard process (stack overflow, allocation failure) is a violation",
+      "Exploration over field combinations and sizes (1, 75/76, 255/256, 519-521, 1039-1041, 65535/65536, up to 400 kB; values that look like script), 0-8 inscriptions per script, 1-3 inputs; pointer and index byte-length boundaries enumerated. Witness bytes are sampled (8 hostile script classes), not enumerated.",
+      "written vs parsed: every data field, input index, consecutive offsets from 0 per input, no incomplete/unrecognised-even flag, no pushnum, no stutter (unless the generated prefix ends in an empty push). The derived duplicate_field flag is not compared (ord sets it for multi-chunk metadata/properties and several parents). Inscription::new(pointer, delegate, parents, rune, file body): field bytes vs independent encoders, then pointer()/delegate()/parents() after a script round trip. distinct = script shape tuples / compact-value classes / hostile classes.",
+      {"evaluations": 20000, "roundtrip_ok": 10000, "roundtrip_ok_chunked_field": 1000, "roundtrip_ok_several_parents": 1000, "roundtrip_ok_later_in_script": 2000, "roundtrip_ok_later_input": 1000, "compact_ok": 1000, "hostile_parsed": 1000})
+
+codec("C28",
+      "round-trip monitor for Properties through the inline and packed encoders, Inscription::new (with/without brotli) and a reveal script, with a reference reader on a generic CBOR parser; totality monitor on hostile CBOR; bounded-decompression monitor: brotli streams around the 30:1 and 4,000,000-byte limits compared with a full decompression, peak heap of each decode measured by a counting global allocator; a dead shard process is a violation",
+      "Exploration: galleries of 0-1200 items (5000 thorough) with ids at every index byte length, titles/traits incl. i64 extremes, unicode, CBOR length boundaries; hostile CBOR classes (nesting to 3x10^5 / 2x10^6 deep, indefinite and 2^64 lengths, mutated valid encodings, schema abuse); brotli streams with ratio 1-60 and around 30, sizes around 4,000,000, bombs to 48 MB (256 MB thorough), truncated / trailing-garbage streams, other encodings. ord's quality-11 compressor limits the compressing path to about 10^3 values per quick run.",
+      "properties p (no duplicate trait names): from_cbor(inline(p)) = from_cbor(packed(p)) = p, reference reader agrees, Inscription::new(compress in {false,true}) then properties() directly and after a script round trip = p (a refusal with the documented size/ratio message is counted, not a violation). Hostile bytes: no panic, no process death. Bounded: properties_cbor() returns Some(v) iff encoding = br, the stream is valid and v = full decompression with len <= min(30 x compressed, 4,000,000); peak heap <= 2 x bound + 96 MiB (brotli ring buffer).",
+      {"evaluations": 1500, "roundtrip_ok_inline": 200, "roundtrip_ok_packed": 200, "reference_reader_agrees_packed": 200, "roundtrip_ok_new_compress_true": 50, "roundtrip_ok_script_compress_false": 100, "hostile_field_decoded": 300, "bounded_accepted_within_limits": 50, "bounded_refused_over_limit": 30, "bounded_class_ratio-edge": 20, "bounded_class_size-edge": 20, "bounded_class_bomb": 20},
+      budget_quick=40)
+
+codec("C35",
+      "round-trip monitor for every persisted encoding: load(store(v)) with the index's own Entry impls, the same values through an in-memory redb database opened with the index's own table definitions (write transaction, commit, read transaction), output entries built / stored / parsed / merged by real Index objects under all 8 combinations of the sat, address and inscription switches; independent unpacking of the 11-byte sat-range layout",
+      "Exploration over each encoding's domain: sat ranges (start bit x length bit grid enumerated, supply and subsidy boundaries), headers, rune entries (u128/u64 extremes, every char class, all terms subsets), inscription entries (0-200 parents), ids/outpoints/satpoints/txids, rune balance lists (0-60), output entries with 0-200 ranges, scripts 0-16 kB, 0-200 inscriptions with offsets at varint length boundaries. Sampled, not exhaustive.",
+      "batch of 8-40 values per type per case: direct and through redb must read back equal; output entries per configuration: value or ranges (+ total), script, inscription list equal; merged(a, b) and merged(merged(a, b), a) keep every range and inscription in order. distinct = batch shape tuples.",
+      {"evaluations": 200000, "readback_ok_rune_entries": 5000, "readback_ok_inscription_entries": 5000, "readback_ok_sat_ranges": 5000, "readback_ok_rune_balances": 5000, "redb_transactions": 200, "utxo_entry_ok": 3000, "utxo_merge_ok": 2000, "utxo_flags_000": 300, "utxo_flags_111": 300, "packed_layout_ok": 5000, "sat_range_bit_grid_enumerated": 1},
+      budget_quick=20)
+
+
 # Coverage floors exist to fail a run that observed (almost) nothing, not to
 # measure throughput: the engine checks above were written against an unloaded
 # 16-core run and had only a 2-4x margin (a loaded machine tripped C01's block
 # floor once). Keep them roughly an order of magnitude below an unloaded run.
 for _c in CHECKS.values():
-    if _c["assumptions"] is not PURE_ASSUME:
+    if _c["assumptions"] is not PURE_ASSUME and _c["assumptions"] is not CODEC_ASSUME:
         _c["floors"] = {k: max(1, v // 4) for k, v in _c["floors"].items()}
 
 
